@@ -32,6 +32,12 @@ open HotXL HotXL.Lexer HotXL.Syntax HotXL.Eval HotXL.Names
 theorem documented_registered : ∀ n ∈ Generated.documented, n ∈ Generated.registry := by
   decide +kernel
 
+/-- Conversely, every key of the dispatcher registry is a documented name: the built-ins are exactly
+    the documented functions, so no undocumented spelling (an implementation's Python name such as
+    `VAR_P`, an alias) resolves - it is `#NAME?` like any other unknown function. -/
+theorem registered_documented : ∀ n ∈ Generated.registry, n ∈ Generated.documented := by
+  decide +kernel
+
 /-- The documented list has 156 entries, as many as its heading announces, and no entry twice. -/
 theorem documented_count :
     Generated.documented.length = 156 ∧ Generated.documentedHeadingCount = 156 ∧
